@@ -103,5 +103,5 @@ CASES += [
 
 CASES += [
     {"name": "loader rewinds the file it is given (seeded change of round 7)", "kind": "mutant", "rule": "C18-N", "edits": [
-        ("quantarhei/core/parcel.py", "    else:\n        obj = pickle.load(filename)\n", "    else:\n        filename.seek(0)\n        obj = pickle.load(filename)\n", 1)]},
+        ("quantarhei/core/parcel.py", "    else:\n        obj = pickle.load(filename)\n", "    else:\n        filename.seek(0)\n        obj = pickle.load(filename)\n", 2)]},
 ]
